@@ -101,6 +101,12 @@ def run(ctx, res):
                     # the model writes the tokens back.  Both are "no silent loss".
                     res.count('known-model-gap:missing-condition')
                     continue
+                if exp != g and tag == 'malformed' and exp == 'err' and g.startswith('ok') and leading_separator(src):
+                    # model gap, malformed input only: a table constructor that starts with a separator (`{ ,a}`) is parsed by the
+                    # implementation (its field loop accepts the separator first) but its writers then fail loudly (AssertionError);
+                    # the model writes the tokens back.  Both are "no silent loss".
+                    res.count('known-model-gap:leading-separator')
+                    continue
                 if exp != g and not (tag == 'malformed' and C08.empty_parens(src)):
                     if exp == 'err' and g.startswith('ok') and paren_prefix(src):
                         # defect 16 (known finding): the implementation's tree loses the parentheses of a prefix expression and its
@@ -177,6 +183,15 @@ def ctx_spec(ctx, text):
     if text not in _spec_cache:
         _spec_cache[text] = ctx.model.run(['speclex ' + hx(text)])[0]
     return _spec_cache[text]
+
+
+def leading_separator(src):
+    """a `{` directly followed (up to trivia) by `,` or `;`"""
+    toks = [t for t in (L.impl_lex([src])[1] or []) if type(t).__name__ not in ('TokSpace', 'TokNewline', 'TokComment')]
+    for a, b in zip(toks, toks[1:]):
+        if type(a).__name__ == 'TokSymbol' and a._data == b'{' and type(b).__name__ == 'TokSymbol' and b._data in (b',', b';'):
+            return True
+    return False
 
 
 def missing_condition(src):
